@@ -675,7 +675,11 @@ func (x *Exec) doCall(fr *Frame, st *State, call *ssa.Call, cc *ssa.CallCommon, 
 			return
 		}
 		x.trusted("function-typed parameters (e.g. getVolumeName) are called as pure, total functions of their arguments")
-		k(st, fnApply(sig, f, args))
+		frs := fnApply(sig, f, args)
+		for j, r := range frs {
+			st.assumeAll(typeFacts(sig.Results().At(j).Type(), r, st.heaptop))
+		}
+		k(st, frs)
 		return
 	}
 	x.fail("call of %T", fnv)
